@@ -34,10 +34,11 @@ type pureCfg struct {
 
 type pureKey struct {
 	M, Path, Origin, Acrm, AE, Acc string
+	Gz                             string // != "": a gzip-encoded JSON entity naming this string, read by the handler
 }
 
 func (k pureKey) String() string {
-	return strings.Join([]string{k.M, k.Path, k.Origin, k.Acrm, k.AE, k.Acc}, "|")
+	return strings.Join([]string{k.M, k.Path, k.Origin, k.Acrm, k.AE, k.Acc, k.Gz}, "|")
 }
 
 type pureBody struct {
@@ -96,6 +97,18 @@ func buildPureContainer(cfg pureCfg) *restful.Container {
 	a.Route(a.PATCH("/lit").To(h))
 	a.Route(a.GET("/{id}/sub/{x:*}").To(h))
 	a.Route(a.GET("/lit").To(h))
+	// reads a (possibly gzip-encoded) entity and answers with what it read
+	a.Route(a.POST("/echo").Consumes(restful.MIME_JSON).To(func(req *restful.Request, resp *restful.Response) {
+		var e struct {
+			Name  string   `json:"name"`
+			Items []string `json:"items"`
+		}
+		if err := req.ReadEntity(&e); err != nil {
+			resp.WriteErrorString(400, "cannot read entity")
+			return
+		}
+		resp.Write([]byte(fmt.Sprintf("read:%s:%d", e.Name, len(e.Items))))
+	}))
 	b := new(restful.WebService).Path("/b/{w}")
 	b.Filter(func(req *restful.Request, resp *restful.Response, chain *restful.FilterChain) {
 		resp.AddHeader("X-Svc", req.PathParameter("w"))
@@ -114,9 +127,12 @@ func pureKeys(r *rand.Rand) []pureKey {
 		{M: "OPTIONS", Path: "/b/u", Origin: "http://a.com", Acrm: "PUT"},
 		{M: "OPTIONS", Path: "/b/u/12", Origin: "http://b.org", Acrm: "POST"},
 		{M: "OPTIONS", Path: "/a/lit", Origin: "http://b.org", Acrm: "GET", AE: "gzip"},
+		{M: "POST", Path: "/a/echo", Gz: "one"},
+		{M: "POST", Path: "/a/echo", Gz: "two"},
+		{M: "POST", Path: "/a/echo", Gz: "three", AE: "gzip"},
 	}
 	paths := []string{"/a/1", "/a/2", "/a/lit", "/a/7/sub/x/y", "/a/8/sub/z", "/b/u", "/b/v", "/b/u/12", "/nope", "/a/1/"}
-	for len(keys) < 18 {
+	for len(keys) < 21 {
 		k := pureKey{M: pick(r, []string{"GET", "GET", "GET", "PUT", "OPTIONS", "POST"}), Path: pick(r, paths),
 			Origin: pick(r, []string{"", "", "http://a.com", "http://b.org"}), AE: pick(r, []string{"", "gzip", "deflate"}),
 			Acc: pick(r, []string{"", "application/json", "text/plain"})}
@@ -153,6 +169,15 @@ func pureObserve(c *restful.Container, k pureKey, rid string) (pureProj, bool) {
 	if k.M == "POST" {
 		hdr = append(hdr, [2]string{"Content-Type", "application/json"})
 		body = []byte("{}")
+	}
+	if k.Gz != "" {
+		items := make([]string, 3000+len(k.Gz)*100)
+		for i := range items {
+			items[i] = fmt.Sprintf("%s-%d", k.Gz, i)
+		}
+		plain, _ := json.Marshal(map[string]interface{}{"name": k.Gz, "items": items})
+		body = gzipBytes(plain)
+		hdr = append(hdr, [2]string{"Content-Encoding", "gzip"})
 	}
 	hr, err := buildRequest(k.M, k.Path, hdr, body, false)
 	if err != nil {
